@@ -399,7 +399,7 @@ func runUnit(w *world.World, u unit, disk map[string][]byte, faults map[string]s
 		}
 		for _, d := range act.diags {
 			pos := fset.Position(d.Pos)
-			out.Diags[outID] = append(out.Diags[outID], Diag{act.a.Name, strings.TrimPrefix(pos.Filename, simRoot), pos.Line, pos.Column, d.Message, DiagRest(fset, d)})
+			out.Diags[outID] = append(out.Diags[outID], Diag{act.a.Name, strings.TrimPrefix(pos.Filename, simRoot), pos.Line, pos.Column, RelMsg(d.Message), DiagRest(fset, d)})
 		}
 	}
 	return nil
